@@ -1221,7 +1221,7 @@ class VM:
             # Built-in typed array methods
             typed_array_methods = ["toString", "join", "subarray", "set"]
             if key_str in typed_array_methods:
-                return self._make_typed_array_method(obj, key_str)
+                return self._receiver_method(self._make_typed_array_method, obj, key_str)
             return obj.get(key_str)
 
         if isinstance(obj, JSArray):
@@ -1261,13 +1261,13 @@ class VM:
                 "sort",
             ]
             if key_str in array_methods:
-                return self._make_array_method(obj, key_str)
+                return self._receiver_method(self._make_array_method, obj, key_str)
             return obj.get(key_str)
 
         if isinstance(obj, JSRegExp):
             # RegExp methods and properties
             if key_str in ("test", "exec", "toString", "valueOf"):
-                return self._make_regexp_method(obj, key_str)
+                return self._receiver_method(self._make_regexp_method, obj, key_str)
             # RegExp properties
             if key_str in (
                 "source",
@@ -1355,7 +1355,7 @@ class VM:
                 "toString",
             ]
             if key_str in string_methods:
-                return self._make_string_method(obj, key_str)
+                return self._receiver_method(self._make_string_method, obj, key_str)
             return UNDEFINED
 
         if isinstance(obj, (int, float)):
@@ -1367,7 +1367,7 @@ class VM:
                 "toPrecision",
                 "valueOf",
             ):
-                return self._make_number_method(obj, key_str)
+                return self._receiver_method(self._make_number_method, obj, key_str)
             return UNDEFINED
 
         # Python callable (including JSBoundMethod)
@@ -1774,6 +1774,63 @@ class VM:
         }
         return methods.get(method, lambda *args: UNDEFINED)
 
+    def _receiver_method(self, factory, obj: JSValue, key_str: str) -> Any:
+        """A built-in method read from a value: remembers how to make the same
+        method for another receiver (f.call(other), f.apply(other), f.bind(other))."""
+        fn = factory(obj, key_str)
+        try:
+            fn._js_factory = factory
+            fn._js_method = key_str
+        except AttributeError:
+            pass
+        return fn
+
+    _MUTATING_ARRAY_METHODS = frozenset(
+        ["push", "pop", "shift", "unshift", "splice", "reverse", "sort", "fill"]
+    )
+
+    def _for_receiver(self, fn: Any, this_val: JSValue) -> Any:
+        """The built-in method fn, working on this_val instead of the value it was read from."""
+        factory = getattr(fn, "_js_factory", None)
+        if factory is None:
+            return fn
+        name = fn._js_method
+        if this_val is UNDEFINED or this_val is NULL:
+            raise JSTypeError(f"{name} called on null or undefined")
+        if factory == self._make_array_method:
+            if not isinstance(this_val, JSArray):
+                if name in self._MUTATING_ARRAY_METHODS:
+                    raise JSTypeError(f"{name} called on a value that is not an array")
+                # Any array-like (a string, an object with a length) is read as a list
+                items = JSArray()
+                if isinstance(this_val, str):
+                    items._elements = list(this_val)
+                elif isinstance(this_val, JSTypedArray):
+                    items._elements = [
+                        this_val.get_index(i) for i in range(this_val.length)
+                    ]
+                elif isinstance(this_val, JSObject):
+                    count = self._to_integer_or_infinity(
+                        self._get_property(this_val, "length")
+                    )
+                    count = 0 if count != count or count < 0 else min(count, 2**24)
+                    items._elements = [
+                        self._get_property(this_val, str(i)) for i in range(int(count))
+                    ]
+                this_val = items
+        elif factory == self._make_string_method:
+            this_val = self._to_string(this_val)
+        elif factory == self._make_number_method:
+            if isinstance(this_val, bool) or not isinstance(this_val, (int, float)):
+                raise JSTypeError(f"{name} called on a value that is not a number")
+        elif factory == self._make_regexp_method:
+            if not isinstance(this_val, JSRegExp):
+                raise JSTypeError(f"{name} called on a value that is not a RegExp")
+        elif factory == self._make_typed_array_method:
+            if not isinstance(this_val, JSTypedArray):
+                raise JSTypeError(f"{name} called on a value that is not a typed array")
+        return factory(this_val, name)
+
     def _make_callable_method(self, fn: Any, method: str) -> Any:
         """Create a method for Python callables (including JSBoundMethod)."""
         from .values import JSBoundMethod
@@ -1785,8 +1842,8 @@ class VM:
             # JSBoundMethod expects this as first arg
             if isinstance(fn, JSBoundMethod):
                 return fn(this_val, *call_args)
-            # Regular Python callable doesn't use this
-            return fn(*call_args)
+            # A method of a built-in kind works on the receiver that is given
+            return self._for_receiver(fn, this_val)(*call_args)
 
         def apply_fn(*args):
             """Call with explicit this and array of arguments."""
@@ -1804,7 +1861,7 @@ class VM:
 
             if isinstance(fn, JSBoundMethod):
                 return fn(this_val, *apply_args)
-            return fn(*apply_args)
+            return self._for_receiver(fn, this_val)(*apply_args)
 
         def bind_fn(*args):
             """Create a bound function with fixed this."""
@@ -1818,8 +1875,10 @@ class VM:
 
             else:
 
+                target = self._for_receiver(fn, bound_this) if args else fn
+
                 def bound(*call_args):
-                    return fn(*bound_args, *call_args)
+                    return target(*bound_args, *call_args)
 
             return bound
 
